@@ -42,6 +42,7 @@ func FuzzC11Binary(f *testing.F) {
 				t.Skip()
 			}
 		}
+		measureAlloc = len(data)%8 == 0 // allocation is measured on an eighth of the inputs (stop-the-world cost)
 		rep := parseAll(true, data)
 		msg := ""
 		switch {
@@ -66,6 +67,7 @@ func FuzzC11Text(f *testing.F) {
 		if textDeclared(data) > 1<<24 {
 			t.Skip()
 		}
+		measureAlloc = len(data)%8 == 0
 		rep := parseAll(false, data)
 		msg := ""
 		switch {
